@@ -407,6 +407,10 @@ impl Scenario for C03 {
         }
     }
 
+    fn sweep_targets(&self, ctx: &Ctx) -> (Vec<(Address, &'static str, &'static [&'static str])>, Vec<Address>) {
+        (vec![(ctx.gw.clone(), "/repo/contracts/axelar-gateway/src", &axmc::inventory::GATEWAY_KNOWN[..])], vec![ctx.gw.clone()])
+    }
+
     fn must_succeed_kinds(&self) -> Vec<&'static str> {
         vec!["construct", "rotate"]
     }
